@@ -681,13 +681,8 @@ def congruence_lemmas(ip: Interp, shared, base_pc=()) -> List[Any]:
             K = ca.K
             cb_cond = z3.substitute(cb.cond, (cb.K, K))
             cb_val = z3.substitute(cb.val.e, (cb.K, K))
-            s = mk_solver(800)
-            rng = z3.And(0 <= K, K < ca.length)
-            s.add(rng)
-            # valid under the function's precondition (part of every path condition) and under the
-            # quantifier-free context in which the two abstractions were formed (the lemma is then
-            # stated conditionally on that context)
-            s.add(*base_pc)
+            if [x.get_id() for x in ca.ctx] != [x.get_id() for x in cb.ctx]:
+                continue
             base_ids = {e.get_id() for e in base_pc}
             ctx_h = []
             seen_h = set()
@@ -695,30 +690,35 @@ def congruence_lemmas(ip: Interp, shared, base_pc=()) -> List[Any]:
                 if e.get_id() not in base_ids and e.get_id() not in seen_h:
                     seen_h.add(e.get_id())
                     ctx_h.append(e)
-            s.add(*ctx_h)
-            if ca.noraise is not None:
-                s.add(ca.noraise)
-            if cb.noraise is not None:
-                s.add(z3.substitute(cb.noraise, (cb.K, K)))
             goal = z3.Not(z3.And(ca.cond == cb_cond, z3.Implies(ca.cond, ca.val.e == cb_val)))
-            s.add(goal)
-            r = s.check()
-            if r == z3.unknown:
-                ab = abstract_hard(list(s.assertions()))
-                if ab is not None:
-                    s = mk_solver(800)
-                    s.add(*ab)
-                    r = s.check()
-            if r == z3.unsat:
-                if [x.get_id() for x in ca.ctx] != [x.get_id() for x in cb.ctx]:
-                    continue
-                hyp = z3.And(*ctx_h) if ctx_h else z3.BoolVal(True)
-                sep = z3.String('sep!c')
-                lemmas.append(z3.Implies(hyp, z3.And(
-                    ip.ccnt(ca) == ip.ccnt(cb),
-                    z3.ForAll([sep], ip.cjoin(ca, sep) == ip.cjoin(cb, sep)),
-                    ip.csum(ca) == ip.csum(cb),
-                    ip.ctok(ca) == ip.ctok(cb))))
+            # first unconditionally (under the precondition only), then conditionally on the
+            # quantifier-free context in which the two abstractions were formed
+            for hyps in ([], ctx_h) if ctx_h else ([],):
+                s = mk_solver(800)
+                s.add(z3.And(0 <= K, K < ca.length))
+                s.add(*base_pc)
+                s.add(*hyps)
+                if ca.noraise is not None:
+                    s.add(ca.noraise)
+                if cb.noraise is not None:
+                    s.add(z3.substitute(cb.noraise, (cb.K, K)))
+                s.add(goal)
+                r = s.check()
+                if r == z3.unknown:
+                    ab = abstract_hard(list(s.assertions()))
+                    if ab is not None:
+                        s = mk_solver(800)
+                        s.add(*ab)
+                        r = s.check()
+                if r == z3.unsat:
+                    hyp = z3.And(*hyps) if hyps else z3.BoolVal(True)
+                    sep = z3.String('sep!c')
+                    body = z3.And(ip.ccnt(ca) == ip.ccnt(cb),
+                                  z3.ForAll([sep], ip.cjoin(ca, sep) == ip.cjoin(cb, sep)),
+                                  ip.csum(ca) == ip.csum(cb),
+                                  ip.ctok(ca) == ip.ctok(cb))
+                    lemmas.append(z3.Implies(hyp, body) if hyps else body)
+                    break
     return lemmas
 
 
